@@ -6,7 +6,7 @@ import ast
 from ..core import Report
 from ..eqterms import child_methods, equal, explain, sigma
 from ..model import Program
-from ..terms import C, FOUR, Interp, find_unknown, has_unknown, is_const, key, mk_neg, show, subst, walk
+from ..terms import C, FOUR, Interp, find_unknown, has_unknown, is_const, key, mk_neg, same, show, subst, walk
 from . import bij
 from .bij import COND, SELF, X, bijection_classes, is_stub, ld, method_site, method_term, val
 from .c01 import ITERATIVE
@@ -178,6 +178,7 @@ def run(prog: Program, rep: Report, tier: str):
     rule_scalar(prog, rep, classes)
     rule_neg(prog, rep, classes)
     rule_mask(prog, rep, classes)
+    rule_deriv(prog, rep, classes)
     if tier == "thorough":
         from ..audit import audit_generic
         audit_generic(prog, rep, "C02")
@@ -387,3 +388,196 @@ def _mentions_only_input(cond):
         if s[0] in ("fold", "sub") and s[0] == "fold":
             return False
     return True
+
+
+# ------------------------------------------------------------------- C02.deriv
+ELEMENTWISE_LEAVES = ["flowjax.bijections.affine.Affine", "flowjax.bijections.affine.Loc",
+                      "flowjax.bijections.affine.Scale", "flowjax.bijections.affine.AdditiveCondition",
+                      "flowjax.bijections.exp.Exp", "flowjax.bijections.softplus.SoftPlus",
+                      "flowjax.bijections.tanh.Tanh", "flowjax.bijections.tanh.LeakyTanh",
+                      "flowjax.bijections.utils.Identity"]
+VOLUME_PRESERVING = ["flowjax.bijections.utils.Flip", "flowjax.bijections.utils.Permute"]
+
+
+def pull_consts(t):
+    """sum(c * a) -> c * sum(a); sum(0) -> 0 (linearity of the full reduction)."""
+    from ..terms import mk_mul as mm
+
+    def rw(s):
+        if s[0] == "call" and s[1] == ("ext", "jax.numpy.sum") and set(dict(s[3])) == {"a"}:
+            a = dict(s[3])["a"]
+            if a == C(0):
+                return C(0)
+            if a[0] == "mul":
+                cs = [x for x in a[1] if is_const(x)]
+                rest = [x for x in a[1] if not is_const(x)]
+                if cs and rest:
+                    inner = rest[0] if len(rest) == 1 else ("mul", tuple(rest))
+                    return mm(tuple(cs) + (("call", s[1], (), (("a", inner),)),))
+        return None
+    return subst(t, rw)
+
+
+def drop_abs_on_parameters(t):
+    def rw(s):
+        if s[0] == "call" and s[1] == ("ext", "jax.numpy.log"):
+            a = dict(s[3]).get("a")
+            if a is not None and a[0] == "call" and a[1] == ("ext", "jax.numpy.abs"):
+                inner = dict(a[3]).get("a")
+                if inner is not None and not any(z == X for z in walk(inner)):
+                    return ("call", s[1], (), (("a", inner),))
+        return None
+    return subst(t, rw)
+
+
+def rule_deriv(prog, rep, classes):
+    from ..symdiff import NotDifferentiable, diff as sdiff, log_abs
+    from ..eqterms import Inconclusive, Poly, Rat, to_rat
+    rep.rule("C02.deriv", "closed-form log-dets against the map actually computed: for elementwise bijections the "
+                          "log-det equals the full sum of log|d transform / dx| obtained by symbolic differentiation "
+                          "(identities: log exp a = a, log sigmoid a = -softplus(-a), log(1 - tanh^2 a) = 2(log 2 - a - "
+                          "softplus(-2a))); pure reorderings have log-det 0; the triangular affine map has "
+                          "sum log|diag|; the spline's derivative function is d/dx of its own in-bounds formula (exact "
+                          "rational identity); planar: log|1 + u^.psi| with psi = h'(w.x+b) w (matrix determinant lemma)",
+             minimum=14)
+    for q in ELEMENTWISE_LEAVES:
+        c = prog.cls(q)
+        T, TL = method_term(prog, c, "transform"), method_term(prog, c, "transform_and_log_det")
+        site = method_site(prog, c, "transform_and_log_det")
+        k = f"{q}:logdet==sum log|dT/dx|"
+        try:
+            d = sdiff(T, X)
+        except NotDifferentiable as e:
+            rep.undecided("C02.deriv", site, k, f"transform not differentiable symbolically: {e}")
+            continue
+        la = log_abs(d)
+        want = C(0) if la == C(0) else ("call", ("ext", "jax.numpy.sum"), (), (("a", la),))
+        got = ld(TL)
+        cands = [(pull_consts(got), pull_consts(want)),
+                 (pull_consts(drop_abs_on_parameters(got)), pull_consts(drop_abs_on_parameters(want)))]
+        try:
+            ok = any(equal(a, b) for a, b in cands)
+        except Inconclusive as e:
+            rep.undecided("C02.deriv", site, k, str(e))
+            continue
+        if ok:
+            rep.holds("C02.deriv", site, k, f"dT/dx = {show(d, 80)}")
+        else:
+            rep.violated("C02.deriv", site, k,
+                         f"transform has derivative {show(d, 120)}, so the log-det must be {show(cands[0][1], 160)}; "
+                         f"the method returns {show(cands[0][0], 160)}")
+    for q in VOLUME_PRESERVING:
+        c = prog.cls(q)
+        T, TL = method_term(prog, c, "transform"), method_term(prog, c, "transform_and_log_det")
+        site = method_site(prog, c, "transform_and_log_det")
+        pure = not any(s[0] in ("add", "mul", "pow", "matmul") for s in walk(T))
+        rep.check(pure and ld(TL) == C(0), "C02.deriv", site, f"{q}:reordering-has-logdet-0",
+                  "transform only reorders its input; log-det 0",
+                  f"transform {show(T, 80)} / log-det {show(ld(TL), 80)}")
+    # triangular affine
+    c = prog.cls("flowjax.bijections.affine.TriangularAffine")
+    T, TL = method_term(prog, c, "transform"), method_term(prog, c, "transform_and_log_det")
+    A = ("attr", SELF, "triangular")
+    want = ("call", ("ext", "jax.numpy.sum"), (), (("a", ("call", ("ext", "jax.numpy.log"), (), (("a", ("call", ("ext", "jax.numpy.abs"), (), (("a", ("call", ("ext", "jax.numpy.diag"), (), (("v", A),))),))),))),))
+    lin = any(s == ("matmul", A, X) for s in walk(T))
+    rep.check(lin and equal(ld(TL), want), "C02.deriv", method_site(prog, c, "transform_and_log_det"),
+              "TriangularAffine:logdet==sum log|diag A|", "A @ x with A triangular: log|det| = sum log|diag(A)|",
+              f"log-det is {show(ld(TL), 160)} for transform {show(T, 80)}")
+    # spline: derivative() is d/dXR of the in-bounds transform formula
+    from .c07 import abstract_spline, where_parts
+    from .spline import spline_method_term
+    c = prog.cls("flowjax.bijections.rational_quadratic_spline.RationalQuadraticSpline")
+    site = method_site(prog, c, "derivative")
+    tT, tD = spline_method_term(prog, "transform"), spline_method_term(prog, "derivative")
+    wt, wd = where_parts(tT), where_parts(tD)
+    done = False
+    if wt and wd:
+        at, ad = abstract_spline(wt[1]), abstract_spline(wd[1])
+        if at and ad:
+            ft, fd = at[0], ad[0]
+            if ft[0] == "call" and ft[1] == ("ext", "jax.numpy.clip"):
+                ft = dict(ft[3])["a"]
+            atoms: dict = {}
+            XRs, Ks = ("sym", "XR"), ("sym", "K")
+            xk, xk1 = ("sub", ("attr", SELF, "x_pos"), Ks), ("sub", ("attr", SELF, "x_pos"), mk_add_((Ks, C(1))))
+            yk, yk1 = ("sub", ("attr", SELF, "y_pos"), Ks), ("sub", ("attr", SELF, "y_pos"), mk_add_((Ks, C(1))))
+            Wd, Hd, Tn = mk_add_((xk1, mk_neg(xk))), mk_add_((yk1, mk_neg(yk))), mk_add_((XRs, mk_neg(xk)))
+
+            def shrink(t0):
+                # x_{k+1}-x_k -> W, y_{k+1}-y_k -> H, XR - x_k -> T (d T / d XR = 1): smaller polynomials
+                return subst(t0, lambda s2: ("sym", "W") if same(s2, Wd) else (("sym", "H") if same(s2, Hd) else (
+                    ("sym", "XR") if same(s2, Tn) else None)))
+            ft, fd = shrink(ft), shrink(fd)
+            try:
+                import verif.eqterms as _eq
+                _eq._BUDGET[0] = 0
+                old_limit = _eq.BUDGET_LIMIT
+                _eq.BUDGET_LIMIT = 6000000
+                rt, rd = to_rat(ft, atoms), to_rat(fd, atoms)
+                xr = key(("sym", "XR"))
+
+                def pd(p):
+                    out = {}
+                    for mono, cf in p.t.items():
+                        md = dict(mono)
+                        if xr in md:
+                            e = md[xr]
+                            nd = dict(md)
+                            if e == 1:
+                                del nd[xr]
+                            else:
+                                nd[xr] = e - 1
+                            m2 = tuple(sorted(nd.items()))
+                            out[m2] = out.get(m2, 0) + cf * e
+                    return Poly({m2: v for m2, v in out.items() if v != 0})
+                num = pd(rt.n) * rt.d - rt.n * pd(rt.d)
+                den = rt.d * rt.d
+                ok = (num * rd.d - rd.n * den).is_zero()
+                rep.check(ok, "C02.deriv", site, "RationalQuadraticSpline:derivative==d/dx(in-bounds transform)",
+                          "exact rational identity d/dx eq.4 == eq.5",
+                          "the derivative function is not the derivative of the in-bounds transform formula")
+                done = True
+            except Inconclusive as e:
+                rep.undecided("C02.deriv", site, "RationalQuadraticSpline:derivative", str(e))
+                done = True
+            finally:
+                _eq.BUDGET_LIMIT = old_limit
+    if not done:
+        rep.undecided("C02.deriv", site, "RationalQuadraticSpline:derivative", "spline formulas not recognised")
+    # planar
+    c = prog.cls(PLANAR_U)
+    site = method_site(prog, c, "transform_and_log_det")
+    TL = method_term(prog, c, "transform_and_log_det")
+    U = Interp(prog).eval_method(c, "get_act_scale", [])
+    w, b = ("attr", SELF, "weight"), ("attr", SELF, "bias")
+    r1 = bij.rank1_atoms(prog, c)
+    l = bij.commute_rank1(ld(TL), r1)
+    z = mk_add_((bij.commute_rank1(("matmul", w, X), r1), b))
+    act = ("call", ("attr", SELF, "activation_fn"), (z,), ())
+    from ..terms import mk_mul as mm, mk_pow as mp
+    psi_tanh = mm((mk_add_((C(1), mk_neg(mp(act, C(2))))), w))
+    psi_leaky = mm((("call", ("ext", "jax.numpy.where"), (), (("condition", ("cmp", "<", act, C(0))), ("x", ("attr", SELF, "negative_slope")), ("y", C(1)))), w))
+    psi_leaky2 = mm((("call", ("ext", "jax.numpy.where"), (), (("condition", ("cmp", "<", z, C(0))), ("x", ("attr", SELF, "negative_slope")), ("y", C(1)))), w))
+
+    def lemma(psi):
+        return ("call", ("ext", "jax.numpy.log"), (), (("a", ("call", ("ext", "jax.numpy.abs"), (), (("a", mk_add_((C(1), ("matmul", U, psi)))),))),))
+    from ..terms import mk_cmp
+    test = mk_cmp("==", ("attr", SELF, "activation"), C("leaky_relu"))
+    cands = [("ite", test, lemma(psi_leaky), lemma(psi_tanh)), ("ite", test, lemma(psi_leaky2), lemma(psi_tanh))]
+    cands += [subst(cd, lambda s: ("ite", test, s[2], s[3]) if s[0] == "ite" and s[1] == test else None) for cd in cands]
+    ok = False
+    for cd in cands:
+        # the implementation builds psi under the activation test and applies log|1 + u.psi| once
+        psi_l = psi_leaky if cd in cands[:1] else psi_leaky2
+        cd2 = bij.commute_rank1(lemma(("ite", test, psi_l, psi_tanh)), r1)
+        cd = bij.commute_rank1(cd, r1)
+        if equal(l, cd) or equal(l, cd2):
+            ok = True
+    rep.check(ok, "C02.deriv", site, "_UnconditionalPlanar:logdet==log|1+u^.psi|",
+              "psi = h'(w.x+b) w with h' = 1 - tanh^2 (tanh) / where(. < 0, slope, 1) (leaky relu), constrained u^",
+              f"log-det is {show(l, 300)}")
+
+
+def mk_add_(items):
+    from ..terms import mk_add
+    return mk_add(tuple(items))
